@@ -60,7 +60,8 @@ type Dispatcher struct {
 	Service    Var
 	Route      Var
 	Err        Var
-	Router     ssa.Value // the RouteSelector value SelectRoute is invoked on
+	Router     ssa.Value       // the RouteSelector value SelectRoute is invoked on
+	Site       ssa.Instruction // the instruction of Fn at which selection happens (the invoke, or the call of the closure/helper holding it)
 }
 
 // findDispatchers locates every function that invokes RouteSelector.SelectRoute and the
@@ -68,7 +69,41 @@ type Dispatcher struct {
 func findDispatchers(p *Program) ([]*Dispatcher, error) {
 	var out []*Dispatcher
 	for _, call := range selectRouteInvokes(p) {
+		// pass-through helper: `return c.router.SelectRoute(...)` - the dispatchers are its callers
+		if g := call.Parent(); g.Parent() == nil && passesThroughP(p, g, call) {
+			n := 0
+			for _, e := range p.callGraph().In[g] {
+				if e.Kind != EdgeStatic {
+					continue
+				}
+				site, ok := e.Site.(*ssa.Call)
+				if !ok {
+					continue
+				}
+				n++
+				d := &Dispatcher{Fn: topFunc(site.Parent()), SelectCall: call, Router: call.Call.Value, Site: site}
+				vars := resultVars(p, site)
+				d.Service, d.Route, d.Err = vars[0], vars[1], vars[2]
+				if d.Route.Cell == nil && d.Route.Val == nil {
+					return nil, fmt.Errorf("selection result #1 unused in %s", p.fname(site.Parent()))
+				}
+				out = append(out, d)
+			}
+			if n > 0 {
+				continue
+			}
+		}
 		d := &Dispatcher{Fn: topFunc(call.Parent()), SelectCall: call, Router: call.Call.Value}
+		d.Site = call
+		if call.Parent() != d.Fn {
+			eachInstr(d.Fn, func(i ssa.Instruction) {
+				if cc := callCommon(i); cc != nil {
+					if f := p.funcValue(cc.Value); f != nil && f == call.Parent() {
+						d.Site = i
+					}
+				}
+			})
+		}
 		vars := make([]Var, 3)
 		for _, r := range referrers(call) {
 			ex, ok := r.(*ssa.Extract)
@@ -173,4 +208,61 @@ func fieldLoadIs(v ssa.Value, owner, field string) (base ssa.Value, ok bool) {
 		return nil, false
 	}
 	return b, true
+}
+
+// passesThrough: g returns the three results of the invoke unchanged.
+func passesThrough(g *ssa.Function, call *ssa.Call) bool {
+	return passesThroughP(nil, g, call)
+}
+
+func passesThroughP(p *Program, g *ssa.Function, call *ssa.Call) bool {
+	rets := returnsOf(g)
+	if len(rets) == 0 {
+		return false
+	}
+	for _, r := range rets {
+		if r.Block().Comment == "recover" {
+			continue
+		}
+		if len(r.Results) != 3 {
+			return false
+		}
+		for k, res := range r.Results {
+			var src []ssa.Value
+			if p != nil {
+				src = p.sources(res, provOpt{ThroughCells: true}) // results are spilled to locals when the function defers
+			} else {
+				src = []ssa.Value{strip(res)}
+			}
+			if len(src) != 1 {
+				return false
+			}
+			ex, ok := src[0].(*ssa.Extract)
+			if !ok || ex.Tuple != ssa.Value(call) || ex.Index != k {
+				return false
+			}
+		}
+	}
+	return true
+}
+
+// resultVars: the variables receiving the three results of a call (cells when stored, else the extracts).
+func resultVars(p *Program, call *ssa.Call) []Var {
+	vars := make([]Var, 3)
+	for _, r := range referrers(call) {
+		ex, ok := r.(*ssa.Extract)
+		if !ok || ex.Index >= 3 {
+			continue
+		}
+		v := Var{Val: ex}
+		for _, rr := range referrers(ex) {
+			if st, ok := rr.(*ssa.Store); ok && st.Val == ssa.Value(ex) {
+				if cv, ok := p.varOfStoreTarget(st.Addr); ok {
+					v = cv
+				}
+			}
+		}
+		vars[ex.Index] = v
+	}
+	return vars
 }
